@@ -952,6 +952,18 @@ func (i *interp) callBuiltin(fr *frame, fn *ssa.Builtin, args []value, instrArgs
 	case "print", "println":
 		return nil
 
+	case "Sizeof", "Alignof":
+		// unsafe.Sizeof / Alignof of a type parameter's instance (not folded by the compiler in generic code)
+		if len(instrArgs) != 1 {
+			unsupported("unsafe.%s arity", fn.Name())
+		}
+		sizes := types.SizesFor("gc", "amd64")
+		n := sizes.Sizeof(instrArgs[0].Type())
+		if fn.Name() == "Alignof" {
+			n = sizes.Alignof(instrArgs[0].Type())
+		}
+		return c.BV(64, uint64(n))
+
 	case "len":
 		switch x := args[0].(type) {
 		case string, symstr:
